@@ -203,6 +203,12 @@ func (it *Interp) symBinop(s *State, x *ssa.BinOp, a, b IntV) (AV, bool) {
 		}
 		return fresh(), true
 	case token.SHR, token.QUO:
+		if x.Op == token.SHR && a.Sym > 0 && b.Known && b.V >= 0 && b.V < 62 && alo >= 0 && a.A > 0 && a.B >= 0 && a.A%(int64(1)<<uint(b.V)) == 0 {
+			// (A*s + B) >> k with 2^k | A: exact
+			if si := s.sym(a.Sym); si != nil && si.Lo >= 0 {
+				return IntV{Sym: a.Sym, A: a.A >> uint(b.V), B: a.B >> uint(b.V), Opq: opq}, true
+			}
+		}
 		if a.Sym > 0 && b.Known && b.V > 0 && alo >= 0 {
 			var lo, hi int64
 			if x.Op == token.SHR {
